@@ -51,7 +51,7 @@ CHECKS = {
 
  "C18": ("E1 ring model + E6 OS fault harness", "exploration",
    "stateful property testing against /proc observations; fault injection in child processes (RLIMIT_AS, map-count exhaustion)",
-   "Generated create/use/drop histories of up to 200 buffers over 1-8 threads must return the count of deleted-file mappings and of descriptors to the baseline; the mapping layout and byte-for-byte aliasing of the halves is checked for every offset; the set-up table (element kinds x valid/invalid/huge sizes up to 2^63-4096, where the kernel may refuse at ftruncate or mmap) is enumerated and extended by generated sizes and by elements of 1-6 pages; mapping failures injected in child processes must surface as Err without leaks.",
+   "Generated create/use/drop histories of up to 200 buffers over 1-8 threads, and concurrent churn in a child process (holders re-verifying pools of small buffers while churners create and drop buffers of up to 6 MiB; a child crash is a violation), must return the count of deleted-file mappings and of descriptors to the baseline; the mapping layout and byte-for-byte aliasing of the halves is checked for every offset; the set-up table (element kinds x valid/invalid/huge sizes up to 2^63-4096, where the kernel may refuse at ftruncate or mmap) is enumerated and extended by generated sizes and by elements of 1-6 pages; mapping failures injected in child processes must surface as Err without leaks.",
    "only stream-attributable /proc entries are counted; single-threaded check; injected faults are ENOMEM from RLIMIT_AS and vm.max_map_count", "DESIGN.md §5 C18"),
 
  "C17": ("E6 OS fault harness", "fault_enumeration",
@@ -61,7 +61,7 @@ CHECKS = {
 
  "C03": ("E4 schedule explorer", "exploration",
    "schedule-exploring property testing (generated scenario + generated scheduler decision stream on the shuttle runtime via the verif sync shim; history invariant; shrinking over schedule and scenario) + real-thread stress",
-   "A harness producer and consumer share a 1-2 page stream through the public API while every lock/unlock/timed-wait/notify/drop is a scheduling point decided by generated bytes; the consumer must see exactly the committed sequence and tags, and every window acquisition is checked for disjointness from the other side's live windows in ring coordinates; a real two-thread run moves 4e5 (thorough 2e7) samples through a 1-page stream.",
+   "A harness producer and consumer share a 1-2 page stream through the public API while every lock/unlock/timed-wait/notify/drop is a scheduling point decided by generated bytes; the consumer must see exactly the committed sequence and, over every consumed stretch, exactly the producer's tags, and every window acquisition is checked for disjointness from the other side's live windows in ring coordinates; a real two-thread run moves 4e5 (thorough 2e7) samples through a 1-page stream.",
    "sequential consistency at critical-section granularity; weak memory only sampled by the real-thread run on x86", "DESIGN.md §5 C03"),
  "C04": ("E4 schedule explorer", "exploration",
    "schedule-exploring property testing of the wait/eof verdicts (generated scenario + decision stream; verdict soundness and bounded-arrival oracle)",
@@ -78,7 +78,7 @@ CHECKS = {
    "balanced diamonds only; blocks chunking-invariant (C08)", "DESIGN.md §5 C06"),
  "C07": ("E4 schedule explorer + E5 graph generator", "exploration",
    "fault-injecting, schedule-exploring property testing (cancellation at generated scheduling points; failing wrapper block at generated position/call; both runners)",
-   "Both runners execute generated graphs on the shuttle runtime while a canceller task cancels after a generated number of scheduling points, or a wrapper block fails on its k-th call, or both at once (the failing call passes scheduling points while the canceller runs); cancel => run() returns Ok with <= 1 further work() call per block and all MT blocks dropped; fail => run() returns an Err carrying the injected marker; panics, Ok, other errors and non-return are violations.",
+   "Both runners execute generated graphs on the shuttle runtime while a canceller task cancels after a generated number of scheduling points, or a wrapper block fails on its k-th call, several failing blocks (up to every block), or cancel and fail at once (the failing call passes scheduling points while the canceller runs); cancel => run() returns Ok with <= 1 further work() call per block and all MT blocks dropped; fail => run() returns an Err carrying the injected marker; panics, Ok, other errors and non-return are violations.",
    "bounded liveness; if the failing block never reaches call k nothing is injected", "DESIGN.md §5 C07"),
 
  "C11": ("E2 drip-feed driver + E3 reference models", "exploration",
